@@ -150,6 +150,8 @@ def ev(e, env, defs):
         return math.pi, U * math.pi
     if t == 'rv':
         return float(env[e[1]]), 0.0
+    if t == 'val':
+        return e[1], e[2]
     if t == 'izr':
         return float(zev(e[1], env)), 0.0
     if t in ('add', 'sub', 'mul', 'div'):
@@ -206,10 +208,13 @@ def ev(e, env, defs):
         vals = []
         for p, a in zip(params, e[2]):
             va, ea = ev(a, env, defs)
-            if ea != 0.0:
-                raise Unsupported('inexact argument of a formula call')
-            vals.append(va)
-        for p, va in zip(params, vals):
+            vals.append((va, ea))
+        if any(ea != 0.0 for _, ea in vals):
+            # inexact arguments: evaluate the body on the values and propagate the
+            # argument errors to first order through a substituted copy
+            m = {p: ('val', va, ea) for p, (va, ea) in zip(params, vals)}
+            return ev(subst(body, m), env, defs)
+        for p, (va, ea) in zip(params, vals):
             sub[p] = va
         return ev(body, sub, defs)
     if t == 'ite':
@@ -993,7 +998,7 @@ def subst(e, m):
     t = e[0]
     if t == 'rv':
         return m.get(e[1], e)
-    if t in ('q', 'pi', 'izr'):
+    if t in ('q', 'pi', 'izr', 'val'):
         return e
     if t in ('add', 'sub', 'mul', 'div'):
         return (t, subst(e[1], m), subst(e[2], m))
@@ -1057,6 +1062,20 @@ def build():
                              ('sub', ('mul', ('rv', 'r'), ('call', Fm, [('rv', 'r'), rho])),
                               ('mul', ('rv', 'Rc'), ('call', Fn, [('rv', 'r'), rho])))))
     info['rbasex_stencil'] = stencil
+    defs.append(('rbasex_stencil', 'R', ['__c', '__u', '__l'], stencil))
+    ZR, ZRC = ('zv', 'r'), ('zv', 'Rc')
+    pn = []
+    for k in sorted(F):
+        if k - 1 in F and k >= 0:
+            ge, lt = 'rbasex_rFRF%d_ge' % k, 'rbasex_rFRF%d_lt' % k
+            r_ = ('izr', ZR)
+            c = ('call', ge, [r_, ('izr', ZRC)])
+            u = ('call', ge, [r_, ('izr', zshift(ZRC, 1))])
+            lo = ('ite', ('le', ZR, zshift(ZRC, -1)), ('call', ge, [r_, ('izr', zshift(ZRC, -1))]),
+                  ('call', lt, [r_, ('izr', zshift(ZRC, -1))]))
+            defs.append(('rbasex_p%d' % k, 'Z', ['Rc', 'r'], ('call', 'rbasex_stencil', [c, u, lo])))
+            pn.append(k)
+    info['rbasex_p'] = pn
     return defs, info
 
 
@@ -1066,13 +1085,11 @@ def fix_rbasex_calls(defs):
 
 
 def render(defs, info):
-    out = [HEADER % 'abel/{dasch,daun,rbasex}.py']
+    out = [HEADER % 'abel/{dasch,daun,rbasex}.py', 'Create HintDb c09defs.\n']
     for name, kind, params, ir in defs:
         ty = 'R' if kind == 'R' else 'Z'
-        out.append('Definition %s (%s : %s) : R :=\n  %s.\n' % (name, ' '.join(params), ty, rrender(ir)))
-    st = info['rbasex_stencil']
-    out.append('(* second-difference stencil of _bs_rbasex: value at R from rFRF at R (c), R+1 (u), R-1 (l) *)')
-    out.append('Definition rbasex_stencil (__c __u __l : R) : R :=\n  %s.\n' % rrender(st))
+        out.append('Definition %s (%s : %s) : R :=\n  %s.\n#[global] Hint Unfold %s : c09defs.\n'
+                   % (name, ' '.join(params), ty, rrender(ir), name))
     return '\n'.join(out)
 
 
